@@ -54,9 +54,9 @@ theorem C14_readonly_api : ∀ e ∈ allMR, e.api = true → (mutators.lookup e.
 /-- the documented mutators store only where the table says (never to a base, never to package-level state) -/
 theorem C14_mutators_scope : ∀ e ∈ allMR, e.api = true → ∀ m ∈ mutators, m.1 = e.name → ∀ r ∈ e.writes, r ∈ m.2 := by decide +kernel
 
-/-- no function at all, exported or not, stores to package-level state (`init` builds the tables through external calls,
-    listed below) -/
-theorem C14_no_function_writes_globals : ∀ e ∈ allMR, "global" ∉ e.writes := by decide +kernel
+/-- no function at all, exported or not, stores to package-level state — except `init`, which runs before any other code
+    of the package can (it builds the tables, through external calls listed below or by assigning a derived table) -/
+theorem C14_no_function_writes_globals : ∀ e ∈ allMR, e.name ≠ "init" → "global" ∉ e.writes := by decide +kernel
 
 /-- methods of types defined outside the two packages that an exported function (through any chain of helpers: the
     summary is interprocedural) calls on shared objects are readers (bit tests, clones,
